@@ -35,7 +35,7 @@ def nontrivial(impl):
 
 CHECK = ScenarioCheck(
     "C08", ["SimVerif.Props.C08"], "kernel", gen.generate, spec_c08, nontrivial,
-    "UDP scenarios over 2-4 nodes (multi-homed, NAT on outgoing routes, per-address access queues, limited and unlimited capacities, scripted droppers, path-MTU tables): random family (sockets binding / closing / rebinding ports, bursts, all receive styles) plus directed families — leak (150-400 datagrams of 3-9 kB to an always re-arming reader with a 1-100 byte buffer over unlimited queues: truncated remainders >> 256 kB), reopen (datagrams in flight / queued unread while the receiver closes, re-opens, rebinds, is replaced by another socket, moved or destroyed; churn instant before / at / after the arrival instant), sizes (0, 1, MTU-1, MTU, MTU+1 with DF, 65534, 65535, 65536; 1-4 send/receive buffers; capacity len-1, len, len+1, 1, 48, 49, 65536), fanin (several senders incl. implicit binds and ephemeral ports to one receiver, sends to unbound ports and foreign addresses), overflow (> 256 kB queued at a non-reading socket, then drained, then a second burst), burst (305 x 65535 bytes at one instant + filler to exactly 200 ms of NIC queue +-1 byte, sends 1 ns .. 200 ms later); non-trivial = >= 3 datagrams received and (>= 1 truncated or >= 1 close/destroy); distinct = distinct implementation trace",
+    "UDP scenarios over 2-4 nodes (multi-homed, NAT on outgoing routes, per-address access queues, limited and unlimited capacities, scripted droppers, path-MTU tables): random family (sockets binding / closing / rebinding ports, bursts, all receive styles) plus directed families — leak (150-400 datagrams of 3-9 kB to an always re-arming reader with a 1-100 byte buffer over unlimited queues: truncated remainders >> 256 kB), reopen (datagrams in flight / queued unread while the receiver closes, re-opens, rebinds, is replaced by another socket, moved or destroyed; churn instant before / at / after the arrival instant; in a third of them every other queue is infinitely fast so that the churn handler runs in the very instant of the arrival, before or after the delivery depending on which timer was armed first), sizes (0, 1, MTU-1, MTU, MTU+1 with DF, 65534, 65535, 65536; 1-4 send/receive buffers; capacity len-1, len, len+1, 1, 48, 49, 65536), fanin (several senders incl. implicit binds and ephemeral ports to one receiver, sends to unbound ports and foreign addresses; the ephemeral / implicitly bound endpoints 2000+j are destinations too: datagrams sent to them before they exist, after, to the neighbouring port, and read there), overflow (> 256 kB queued at a non-reading socket, then drained, then a second burst), burst (305 x 65535 bytes at one instant + filler to exactly 200 ms of NIC queue +-1 byte, sends 1 ns .. 200 ms later; shapes: plain / DF discards and unbound destinations inside the burst / sender moved to another object / closed, re-opened and re-bound after the burst); non-trivial = >= 3 datagrams received and (>= 1 truncated or >= 1 close/destroy); distinct = distinct implementation trace",
     TRUSTED, ASSUME, spec_scn=True)
 
 
